@@ -25,9 +25,12 @@ package stdlib
 //ugo:callable func(s string) (ret ugo.Object, err error)
 
 // time module FixedZone
-// strings module Repeat
 //
 //ugo:callable func(s string, i1 int) (ret ugo.Object)
+
+// strings module Repeat
+//
+//ugo:callable func(s string, i1 int) (ret ugo.Object, err error)
 
 // time module Time, Now
 //
